@@ -606,11 +606,13 @@ def construct (inp : CtorIn) : Except Err Parser := do
 
 /-! ### `parse` on top of the constructed parser -/
 
-/-- what `parse` consults -/
-def Parser.cfg (P : Parser) : Cfg Sym :=
-  { isTerm := fun s => decide (s ∈ P.terminals),
-    table := fun X t => (dget (X, t) P.table).map (fun l => l.map Rule.rhs),
-    isSuffix := fun s => decide (s ∈ P.suffix) }
+/-- what `parse` consults: `self.terminals`, `self.parse_table.get((X, t))`, `self._suffix_symbols` -/
+def cfgOf {σ : Type} [DecidableEq σ] (terms : List σ) (T : Table σ) (suffix : List σ) : Cfg σ :=
+  { isTerm := fun s => decide (s ∈ terms),
+    table := fun X t => (dget (X, t) T).map (fun l => l.map Rule.rhs),
+    isSuffix := fun s => decide (s ∈ suffix) }
+
+def Parser.cfg (P : Parser) : Cfg Sym := cfgOf P.terminals P.table P.suffix
 
 /-- `_Tokenizer.tokenize` naming: `synonyms.get(name, name)`, then `keywords.get((name, value))` -/
 def Parser.rename (P : Parser) (raw : List Char × List Char) : Tok Sym :=
